@@ -202,8 +202,9 @@ IP_SCOPES = [ip_checks.core_scope, ip_checks.file_scope, ip_checks.cli_scope, ip
 
 
 def ip_prop(mod, scopes, extra_mods=()):
-    return {"modules": ["Netconan.Props." + mod] + list(extra_mods), "scopes": scopes,
-            "checker_cmd": "cd lean && lake build Netconan.Props.%s && lake env lean <#print axioms audit>" % mod,
+    # Props.SrcIp: the same results on the definitions translated from the source text on this run (harness/py2lean.py)
+    return {"modules": ["Netconan.Props." + mod, "Netconan.Props.SrcIp"] + list(extra_mods), "scopes": scopes,
+            "checker_cmd": "cd lean && lake build Netconan.Props.%s Netconan.Props.SrcIp && lake env lean <#print axioms audit>" % mod,
             "rule": IP_RULE, "assumptions": IP_ASSUME}
 
 
@@ -249,17 +250,17 @@ PROPS = {
                     "and colon-separated tokens with near-miss parts and delimiters; every h::l split shape; realistic multi-token lines; "
                     "distinct_nontrivial counts distinct (family, first 12 characters) keys",
             "assumptions": ["the regular expressions are modelled by the pinned translation (CPython's own parser) run by the Lean engine; engine = _sre is validated by this correspondence, not proved"]},
-    "C07": {"modules": ["Netconan.Props.C07"], "scopes": [secret_checks.corr_scope, secret_checks.c07_scope],
+    "C07": {"modules": ["Netconan.Props.C07", "Netconan.Props.SrcSecrets"], "scopes": [secret_checks.corr_scope, secret_checks.c07_scope],
             "checker_cmd": "cd lean && lake build Netconan.Props.C07 && lake env lean <#print axioms audit>", "rule": SECRET_RULE,
             "assumptions": SECRET_ASSUME},
-    "C08": {"modules": ["Netconan.Props.C08", "Netconan.Props.C18Data"], "scopes": [secret_checks.corr_scope, secret_checks.codec_scope, secret_checks.c08_scope, secret_checks.c08_dir_scope, secret_checks.c08_volume_scope],
+    "C08": {"modules": ["Netconan.Props.C08", "Netconan.Props.C18Data", "Netconan.Props.SrcSecrets"], "scopes": [secret_checks.corr_scope, secret_checks.codec_scope, secret_checks.c08_scope, secret_checks.c08_dir_scope, secret_checks.c08_volume_scope],
             "checker_cmd": "cd lean && lake build Netconan.Props.C08 && lake env lean <#print axioms audit>", "rule": SECRET_RULE,
             "assumptions": SECRET_ASSUME},
-    "C09": {"modules": ["Netconan.Props.C09"], "scopes": [secret_checks.corr_scope, secret_checks.codec_scope, secret_checks.c09_scope],
+    "C09": {"modules": ["Netconan.Props.C09", "Netconan.Props.SrcSecrets"], "scopes": [secret_checks.corr_scope, secret_checks.codec_scope, secret_checks.c09_scope],
             "checker_cmd": "cd lean && lake build Netconan.Props.C09 && lake env lean <#print axioms audit>", "rule": SECRET_RULE,
             "assumptions": SECRET_ASSUME},
     "C10": text_prop("C10", [text_checks.words_scope, text_checks.hashseed_scope]),
-    "C11": text_prop("C11", [text_checks.as_scope]),
+    "C11": dict(text_prop("C11", [text_checks.as_scope]), modules=["Netconan.Props.C11", "Netconan.Props.SrcAs"]),
     "C12": text_prop("C12", [text_checks.pipeline_corr, text_checks.structure_scope, text_checks.order_scope, iptext_checks.long_line_scope, files_checks.files_scope]),
     "C13": text_prop("C13", [text_checks.pipeline_corr, text_checks.determinism_scope, text_checks.hashseed_scope]),
     "C14": text_prop("C14", [text_checks.pipeline_corr, text_checks.total_scope, ip_scenarios.scenario_scope]),
